@@ -12,7 +12,7 @@ import (
 )
 
 func init() {
-	register("C15", "Decides the structure of the canary node selection (the function that stores status.canary.nodes): (R1) the stored list is built only by appends starting from an empty list, and every appended name is proved absent from the list it is appended to (membership function or exhaustive scan flag) — distinctness; (R2) every appended name is either the Name of a node of the node list freshly listed in the same function, appended under CheckNodeFitness(template pod of the new replica set, that node)==true, or a previously selected name appended under fit[name]==true for a map filled only with CheckNodeFitness results keyed by names of freshly listed nodes — validity; (R8) that node list is listed with the converted spec.strategy.canary.nodeSelector on every path on which a selector is set; (R3) every resolution of Strategy.Canary.Replicas reachable from the ExtendedDaemonSet reconciler rounds up and uses Status.Desired of the same reconciled ExtendedDaemonSet as total; (R4) a new node is added only while len(list) < resolved replicas and the bound is re-checked after every addition; (R5) a return without error implies len(stored list) >= resolved replicas, and the caller returns the selection error; (R6) candidates are sorted by per-node restart count (ascending, counted from the listed pods) before new nodes are taken, and every previously selected name that is still fit and not a duplicate is kept; (R7) the call of the selection function is guarded only by `a canary is recorded` facts (no extra guard that skips re-validation).", runC15)
+	register("C15", "Decides the structure of the canary node selection (the function that stores status.canary.nodes): (R1) the stored list is built only by appends starting from an empty list, and every appended name is proved absent from the list it is appended to (membership function or exhaustive scan flag) — distinctness; (R2) every appended name is either the Name of a node of the node list freshly listed in the same function, appended under CheckNodeFitness(template pod of the new replica set, that node)==true, or a previously selected name appended under fit[name]==true for a map filled only with CheckNodeFitness results keyed by names of freshly listed nodes — validity; (R8) that node list is listed with the converted spec.strategy.canary.nodeSelector on every path on which a selector is set; (R3) every resolution of Strategy.Canary.Replicas reachable from the ExtendedDaemonSet reconciler rounds up and uses Status.Desired of the same reconciled ExtendedDaemonSet as total; (R4) a new node is added only while len(list) < resolved replicas and the bound is re-checked after every addition; (R5) a return without error implies len(stored list) >= resolved replicas, and the caller returns the selection error; (R6) candidates are sorted by per-node restart count (ascending, counted from the listed pods) before new nodes are taken, and every previously selected name that is still fit and not a duplicate is kept; (R9) the pod used for every CheckNodeFitness in the selection is built from the replica-set argument, which at the reconciler is the replica set selected under IsReplicaSetUpToDate == true and the one recorded as Status.Canary.ReplicaSet; (R7) the call of the selection function is guarded only by `a canary is recorded` facts (no extra guard that skips re-validation).", runC15)
 }
 
 // c15Sel gathers the anchors of the selection function.
@@ -176,6 +176,7 @@ func runC15(r *Run) {
 	r.RuleDoc("C15.R5", "no-error return implies len(status.canary.nodes) >= resolved replicas; the caller returns the selection error")
 	r.RuleDoc("C15.R6", "restart-ordered candidates before selection; previously selected names that are still fit are kept")
 	r.RuleDoc("C15.R7", "node re-validation (the selection call) runs whenever a canary is recorded: no extra guard")
+	r.RuleDoc("C15.R9", "node fitness is tested with the pod template of the replica set matching spec.template (the one recorded as Status.Canary.ReplicaSet)")
 	r.RuleDoc("C15.R8", "the candidate node list is listed with the converted canary nodeSelector whenever one is set")
 	r.Floor("C15.R1", 3)
 	r.Floor("C15.R2", 2)
@@ -185,6 +186,7 @@ func runC15(r *Run) {
 	r.Floor("C15.R6", 3)
 	r.Floor("C15.R7", 1)
 	r.Floor("C15.R8", 1)
+	r.Floor("C15.R9", 2)
 	r.NotCovered("quality of the preference beyond `sorted by restart count before selection` and the anti-affinity quota arithmetic; behaviour over node churn histories between reconciles; requirements silently dropped inside ConvertLabelSelector (invalid operator); the node list being served from a stale cache")
 
 	s := c15FindSelection(r, "C15.R1")
@@ -195,7 +197,8 @@ func runC15(r *Run) {
 	c15Distinct(r, s, apps)
 	c15Valid(r, s, apps)
 	c15Selector(r, s)
-	c15Replicas(r, s)
+	c15Replicas(r, "C15.R3", s)
+	c15TemplateSource(r, s)
 	c15CapWith(r, "C15.R4", s, apps)
 	c15Shortage(r, s)
 	c15Order(r, s, apps)
@@ -493,7 +496,7 @@ func c15CanonRoot(v ssa.Value, reach map[*ssa.Function]bool, depth int) []ssa.Va
 	return out
 }
 
-func c15Replicas(r *Run, s *c15Sel) {
+func c15Replicas(r *Run, rule string, s *c15Sel) {
 	type site struct {
 		c     *ssa.Call
 		fn    *ssa.Function
@@ -508,11 +511,11 @@ func c15Replicas(r *Run, s *c15Sel) {
 			}
 			pos := r.Prog.Pos(c.Pos())
 			up, isC := constBool(c.Call.Args[2])
-			r.Check("C15.R3", "round up", pos, shortFunc(fn), "a percentage of canary replicas is rounded up", isC && up, "roundUp argument "+descValueC(c.Call.Args[2]))
+			r.Check(rule, "round up", pos, shortFunc(fn), "a percentage of canary replicas is rounded up", isC && up, "roundUp argument "+descValueC(c.Call.Args[2]))
 			total := unwrap(c.Call.Args[1])
 			root, p := accessPath(total)
 			isEDS := isPtrToNamed(root.Type(), pkgAPI, "ExtendedDaemonSet") && pathIsC(p, "Status", "Desired")
-			r.Check("C15.R3", "total", pos, shortFunc(fn), "the total is Status.Desired of the ExtendedDaemonSet (the number of nodes it targets)", isEDS, "total "+descValueC(total))
+			r.Check(rule, "total", pos, shortFunc(fn), "the total is Status.Desired of the ExtendedDaemonSet (the number of nodes it targets)", isEDS, "total "+descValueC(total))
 			if isEDS {
 				sites = append(sites, site{c, fn, c15CanonRoot(root, s.reach, 0)})
 			}
@@ -529,19 +532,141 @@ func c15Replicas(r *Run, s *c15Sel) {
 				}
 			}
 		}
-		r.Check("C15.R3", "sibling agreement", r.Prog.Pos(sites[0].c.Pos()), shortFunc(sites[0].fn), "every resolution of the canary replicas uses the same ExtendedDaemonSet object's Status.Desired", same, strings.Join(d, ", "))
+		r.Check(rule, "sibling agreement", r.Prog.Pos(sites[0].c.Pos()), shortFunc(sites[0].fn), "every resolution of the canary replicas uses the same ExtendedDaemonSet object's Status.Desired", same, strings.Join(d, ", "))
+	}
+}
+
+// ---------------------------------------------------------------------------------------------
+// R9: the template pod used for the fitness tests is the NEW replica set's
+
+// c15TemplateSource: the pod handed to CheckNodeFitness is built (CreatePodFromDaemonSetReplicaSet)
+// from a replica-set parameter of the selection function, and every call site of the selection
+// function feeds that parameter — followed up through the callers' parameters to the reconciler —
+// with the replica set that was selected under comparison.IsReplicaSetUpToDate(rs, eds) == true,
+// i.e. the one matching spec.template. The same value's name is what the status records as
+// Status.Canary.ReplicaSet (checked as a second witness where the caller passes it on).
+func c15TemplateSource(r *Run, s *c15Sel) {
+	fn := s.fn
+	// replica-set parameter(s) the template pod is built from, restricted to pods that reach a fitness call
+	params := map[*ssa.Parameter]bool{}
+	nFit := 0
+	for _, ci := range callsIn(fn) {
+		c, ok := ci.(*ssa.Call)
+		if !ok || calleeName(&c.Call) != pkgSched+".CheckNodeFitness" || len(c.Call.Args) != 3 {
+			continue
+		}
+		nFit++
+		pos := r.Prog.Pos(c.Pos())
+		good := true
+		for _, o := range origins(c.Call.Args[1]) {
+			tc, isT := isResultOf(o, pkgPodUtils+".CreatePodFromDaemonSetReplicaSet", 0)
+			if !isT || len(tc.Call.Args) < 2 {
+				good = false
+				continue
+			}
+			p, isP := tc.Call.Args[1].(*ssa.Parameter)
+			if !isP || !isPtrToNamed(p.Type(), pkgAPI, "ExtendedDaemonSetReplicaSet") {
+				good = false
+				continue
+			}
+			params[p] = true
+		}
+		if !good {
+			r.Check("C15.R9", "fitness pod", pos, shortFunc(fn), "the pod tested for fitness is built by the pod constructor from a replica-set parameter of the selection function", false, "pod argument "+descValueC(c.Call.Args[1]))
+		}
+	}
+	if nFit == 0 || len(params) == 0 {
+		r.Check("C15.R9", "fitness pod", r.Prog.Pos(fn.Pos()), shortFunc(fn), "the selection function tests fitness with a pod built from a replica-set parameter", false, "no such construction found")
+		return
+	}
+	sites := callSitesOf(fn, s.reach)
+	if len(sites) == 0 {
+		r.Check("C15.R9", "template replica set", "-", shortFunc(fn), "the selection function is called from the reconcile path", false, "no static call site")
+		return
+	}
+	ffs := map[*ssa.Function]*FuncFacts{}
+	for _, cs := range sites {
+		for p := range params {
+			arg := cs.Common().Args[paramIndex(p)]
+			pos := r.Prog.Pos(cs.Pos())
+			roots := c15CanonRoot(arg, s.reach, 0)
+			good := len(roots) > 0
+			var d []string
+			for _, rt := range roots {
+				var in *ssa.Function
+				if i, ok := rt.(ssa.Instruction); ok {
+					in = i.Parent()
+				}
+				under := false
+				if in != nil {
+					ff := ffs[in]
+					if ff == nil {
+						ff = computeFacts(in)
+						ffs[in] = ff
+					}
+					// every non-nil origin must be defined under the up-to-date fact
+					under = true
+					n := 0
+					for _, o := range origins(rt) {
+						if isNilConst(o) {
+							continue
+						}
+						n++
+						b := blockOf(o)
+						if b == nil || !ff.Holds(b, true, func(c ssa.Value, _ string) bool {
+							_, ok := isCallTo(c, pkgComparison+".IsReplicaSetUpToDate")
+							return ok
+						}) {
+							under = false
+						}
+					}
+					under = under && n > 0
+				}
+				d = append(d, fmt.Sprintf("%s (selected under IsReplicaSetUpToDate=%v)", descValueC(rt), under))
+				if !under {
+					good = false
+				}
+			}
+			r.Check("C15.R9", "template replica set of the selection", pos, shortFunc(cs.Parent()),
+				"node fitness is tested with the pod template of the replica set matching spec.template: the replica-set argument of the selection call is, at the reconciler, the value selected under comparison.IsReplicaSetUpToDate(...) == true",
+				good, "argument "+descValueC(arg)+" resolves to "+strings.Join(d, "; "))
+			// second witness: the same caller value names Status.Canary.ReplicaSet (through a callee that stores <param>.Name there)
+			caller := cs.Parent()
+			recorded, seen := false, false
+			for _, ci := range callsIn(caller) {
+				cal := staticCallee(ci.Common())
+				if cal == nil || !r.Prog.IsRuleSite(cal) {
+					continue
+				}
+				for _, st := range fieldStoresInC(cal, pkgAPI, "ExtendedDaemonSetStatusCanary", "ReplicaSet") {
+					seen = true
+					root, pp := accessPath(unwrap(st.Val))
+					if pr, ok := root.(*ssa.Parameter); ok && pathIsMetaC(pp, "Name") && paramIndex(pr) < len(ci.Common().Args) && ci.Common().Args[paramIndex(pr)] == arg {
+						recorded = true
+					}
+				}
+			}
+			if seen {
+				r.Check("C15.R9", "selection and status name the same replica set", pos, shortFunc(caller),
+					"the replica set whose template is used for the fitness tests is the one recorded as Status.Canary.ReplicaSet", recorded, "argument "+descValueC(arg))
+			}
+		}
 	}
 }
 
 // ---------------------------------------------------------------------------------------------
 // R4 (= C04.R5)
 
-func c15Cap(r *Run, rule string) {
-	s := c15FindSelection(r, rule)
+// c15Cap instantiates, under C04's rule ids, the two clauses of "the controller never adds nodes
+// beyond the resolved spec.strategy.canary.replicas": the selection loop's bound (capRule) and the
+// agreement of every resolution of Canary.Replicas (replicasRule).
+func c15Cap(r *Run, capRule, replicasRule string) {
+	s := c15FindSelection(r, capRule)
 	if s == nil {
 		return
 	}
-	c15CapWith(r, rule, s, s.classify())
+	c15CapWith(r, capRule, s, s.classify())
+	c15Replicas(r, replicasRule, s)
 }
 
 func c15LenOf(k *keyer, v ssa.Value, list func(ssa.Value) bool) bool {
